@@ -34,10 +34,12 @@ def suite(wt):
 def main():
   mode, sid, wt = sys.argv[1:4]
   if mode == 'confirm':
-    r = sh('git stash list', cwd=wt)
-    sh('git stash -q', cwd=wt)
+    # the patch file is the source of truth (git stash is shared between worktrees and must not be used)
+    sh('git checkout -- matched_markets', cwd=wt)
     rc0, l0 = demo(wt)
-    sh('git stash pop -q', cwd=wt)
+    ra = sh('git apply seeded_out/patch.diff', cwd=wt)
+    if ra.returncode != 0:
+      print('PATCH DOES NOT APPLY', ra.stderr[:300])
     rc1, l1 = demo(wt)
     n, missing = suite(wt)
     imp = sh('/venv/bin/python -W ignore -c "import matched_markets; print(matched_markets.__file__)"', cwd=wt, env=dict(os.environ, PYTHONPATH=wt)).stdout.strip().splitlines()[-1]
